@@ -311,8 +311,8 @@ Proof.
   destruct (chks_with chk ks ks' d) as [d1|] eqn:E.
   { inversion H; subst. apply al_node; [|apply chks_sound; auto].
     unfold plain_tag. rewrite ES, EL, EG. reflexivity. }
-  destruct (N.eqb tg T_If) eqn:EI; [|discriminate].
-  apply N.eqb_eq in EI. subst.
+  destruct (N.eqb tg T_If) eqn:EI.
+  { apply N.eqb_eq in EI. subst.
   destruct ks as [|test [|[t1 body|?] [|[t2 orelse|?] [|? ?]]]]; try discriminate.
   destruct ks' as [|[tu [|[tn [|? ?]|?] [|test' [|? ?]]]|?] [|[t3 orelse'|?] [|[t4 [|? ?]|?] [|? ?]]]]; try discriminate.
   destruct (N.eqb t1 T_LIST && N.eqb t2 T_LIST && N.eqb t3 T_LIST && N.eqb t4 T_LIST && N.eqb tu T_UnaryOp
@@ -326,7 +326,22 @@ Proof.
   - apply HK; [left; reflexivity|exact Et].
   - exact Ab.
   - apply chksl_sound; [|exact H]. intros x Hx. apply IH. pose proof (size_in x orelse Hx). lia.
-  - apply nonempty_ne; auto.
+  - apply nonempty_ne; auto. }
+  (* try without handlers whose finally clause is dropped entirely: `finally: pass` *)
+  destruct (N.eqb tg T_Try) eqn:ETr; [|discriminate].
+  apply N.eqb_eq in ETr. subst.
+  destruct ks as [|body [|[th [|? ?]|?] [|orelse [|[tf fin|?] [|? ?]]]]]; try discriminate.
+  destruct ks' as [|body' [|[th' [|? ?]|?] [|orelse' [|[tf' [|[tp [|? ?]|?] [|? ?]]|?] [|? ?]]]]]; try discriminate.
+  destruct (N.eqb th T_LIST && N.eqb th' T_LIST && N.eqb tf T_LIST && N.eqb tf' T_LIST && N.eqb tp T_Pass) eqn:C;
+    [|discriminate].
+  beq.
+  destruct (chk body body' d) as [d1|] eqn:E1; [|discriminate]. simpl in H.
+  destruct (chk orelse orelse' d1) as [d2|] eqn:E2; [|discriminate]. simpl in H.
+  destruct (drop_list_sound fin d2 d' H) as [-> Af].
+  eapply al_try_pass.
+  - apply HK; [left; reflexivity|exact E1].
+  - apply HK; [right; right; left; reflexivity|exact E2].
+  - exact Af.
 Qed.
 
 Theorem chk_sound b a d d' : chk b a d = Some d' -> al d b a d'.
@@ -336,4 +351,11 @@ Theorem check_sound b a : check b a = true -> allowed b a.
 Proof.
   unfold check, allowed. destruct (chk b a []) as [d'|] eqn:E; [|discriminate].
   intros _. exists d'. apply chk_sound. exact E.
+Qed.
+
+Theorem accept_sound b a : accept b a = true -> acceptable b a.
+Proof.
+  unfold accept, acceptable. intro H. apply andb_true_iff in H as [H1 H2].
+  split; [apply check_sound; exact H1|].
+  intro Wb. rewrite Wb in H2. simpl in H2. rewrite orb_false_r in H2. exact H2.
 Qed.
